@@ -157,6 +157,13 @@ func cmdSelftest(args []string) int {
 		fmt.Printf("selftest: symbolic rune iteration == the runtime's on %d byte strings\n", n)
 	}
 
+	if n, bad := gosym.SelfTestUTF8Valid(); bad != "" {
+		fails++
+		fmt.Println("SELFTEST FAIL:", bad)
+	} else {
+		fmt.Printf("selftest: UTF-8 validity formula == utf8.Valid on %d byte strings\n", n)
+	}
+
 	// 3. regosym concrete mode vs real OPA on fixture pairs
 	dirs, _ := filepath.Glob(filepath.Join(repoDir, "test/data/integration/*"))
 	tck, _ := filepath.Glob(filepath.Join(repoDir, "test/data/tck/*/*"))
